@@ -568,12 +568,29 @@ def path_defs(path, keep=()):
             elif isinstance(t, (ast.Tuple, ast.List)) and isinstance(s.value, (ast.Tuple, ast.List)) and len(t.elts) == len(s.value.elts):
                 pairs = [(e.id, v) for e, v in zip(t.elts, s.value.elts) if isinstance(e, ast.Name)]
             for name, v in pairs:
-                if name in keep or any(isinstance(n, ast.Name) and n.id == name for n in ast.walk(v)):
+                if name in keep:
                     out.pop(name, None)
                     continue
+                if any(isinstance(n, ast.Name) and n.id == name for n in ast.walk(v)):
+                    # x = f(x): the new value in terms of the previous definition, when there is one
+                    prev = out.get(name)
+                    if prev is None:
+                        out.pop(name, None)
+                        continue
+
+                    class _S(ast.NodeTransformer):
+                        def visit_Name(self, n, name=name, prev=prev):
+                            if n.id == name and isinstance(n.ctx, ast.Load):
+                                return ast.parse(ast.unparse(prev), mode='eval').body
+                            return n
+                    v = ast.fix_missing_locations(_S().visit(ast.parse(ast.unparse(v), mode='eval').body))
                 out[name] = v
         elif isinstance(s, ast.AugAssign) and isinstance(s.target, ast.Name):
-            out.pop(s.target.id, None)
+            prev = out.get(s.target.id)
+            if prev is not None:
+                out[s.target.id] = ast.BinOp(left=prev, op=s.op, right=s.value)
+            else:
+                out.pop(s.target.id, None)
     return out
 
 
